@@ -21,7 +21,7 @@ ID = "C19"
 LEVEL = "fault_enumeration"
 SEGMENT_TIMEOUT = 180
 TIERS = {
-    "quick": dict(plans=184, budget_s=70, worlds=4, det_plans=2),
+    "quick": dict(plans=280, budget_s=70, worlds=4, det_plans=2),  # (one walk through the applicable grid and a bit)
     "thorough": dict(plans=6000, budget_s=900, worlds=150, det_plans=8, always_selftest=True),
 }
 LOSSES = ["contig_absent", "neutral_contig_absent", "depth_just_below", "depth_just_above", "locus_skipped", "locus", "locus_decoy_sam", "locus_sliver", "gene_only", "neutral", "neutral_sparse", "empty", "depth_below", "depth_above", "stream_error", "seam_drop_locus"]
